@@ -23,6 +23,9 @@ use tracing::instrument;
 /// 1. **Signature**: Generate block signatures from a basis file
 /// 2. **Delta**: Compute differences between source and basis
 /// 3. **Patch**: Apply delta to basis to reconstruct source
+/// Upper bound for the buffer used to copy one basis range into the output.
+const COPY_CHUNK: usize = 1 << 20;
+
 pub trait Sync {
     /// Generate signature from basis file.
     ///
@@ -361,10 +364,17 @@ impl Sync for CopiaSync {
             match op {
                 DeltaOp::Copy { offset, len } => {
                     basis.seek(SeekFrom::Start(*offset))?;
-                    let mut buffer = vec![0u8; *len as usize];
-                    basis.read_exact(&mut buffer)?;
-                    output.write_all(&buffer)?;
-                    hasher.update(&buffer);
+                    // Copy through a bounded buffer: `len` comes from the (untrusted) delta
+                    // and must never size an allocation (u32::MAX would reserve 4 GiB).
+                    let mut buffer = vec![0u8; (*len as usize).min(COPY_CHUNK)];
+                    let mut remaining = *len as usize;
+                    while remaining > 0 {
+                        let n = remaining.min(buffer.len());
+                        basis.read_exact(&mut buffer[..n])?;
+                        output.write_all(&buffer[..n])?;
+                        hasher.update(&buffer[..n]);
+                        remaining -= n;
+                    }
                     bytes_written += u64::from(*len);
                 }
                 DeltaOp::Literal(data) => {
